@@ -95,7 +95,9 @@ def extra (db : SDb) (l : List Str) (minCrossrefs : Int) : List Str := extraFrom
 def resolved (db : SDb) (citations : List Str) (minCrossrefs : Int) : List Str :=
   expanded db citations ++ extra db (expanded db citations) minCrossrefs
 
-/-- dangling cross-references of cited entries: (citation, target) in citation order -/
+/-- dangling cross-references of the entries named by `l`: (key as listed, target) in list order.
+Applied to the resolved list — the entries that go into the bibliography, cited or appended —
+it gives what has to be reported. -/
 def dangling (db : SDb) (l : List Str) : List (Str × Str) :=
   l.filterMap fun c =>
     (find db c).bind fun e => e.crossref.bind fun x =>
@@ -130,6 +132,48 @@ def proviso (file : List SEntry) (citations : List Str) : Bool :=
       match e.crossref with
       | none => true
       | some x => cited citations x || !(file.any fun q => keq q.key x) || laterOccurs citations x [] file
+
+/-- `parentOk file l x r`: an entry with key `x` occurs in `r`, and if the first such entry
+cross-references `y` itself, then `y` is `x`, or `y` is cited, or no entry of the file has key
+`y`, or one comes after that entry. -/
+def parentOk (file : List SEntry) (l : List Str) (x : Str) : List SEntry → Bool
+  | [] => false
+  | q :: r =>
+    if keq q.key x then
+      match q.crossref with
+      | none => true
+      | some y => keq y x || cited l y || !(file.any fun q' => keq q'.key y) || r.any fun q' => keq q'.key y
+    else parentOk file l x r
+
+/-- `firstLater file l x seen rest`: the FIRST entry with key `x` comes after the entry that
+counts for one of the cited keys `l` and cross-references `x` (`seen` = keys passed so far), and
+that first entry satisfies `parentOk`. -/
+def firstLater (file : List SEntry) (l : List Str) (x : Str) : (seen : List Str) → (rest : List SEntry) → Bool
+  | _, [] => false
+  | seen, e :: r =>
+    !keq e.key x &&
+    ((!seen.any (keq e.key) && cited l e.key
+        && (match e.crossref with | some y => keq y x | none => false)
+        && parentOk file l x r)
+      || firstLater file l x (e.key :: seen) r)
+
+/-- The proviso under which the filtered reading also stores THE SAME ENTRIES (not only the same
+keys) as the unfiltered one and reports the same dangling references for the appended parents:
+`proviso`, and for every citation `c` whose effective entry cross-references `x`: `x` is cited,
+or no entry has key `x`, or the FIRST entry with key `x` comes after the effective entry of a
+cited child that references `x` (an earlier duplicate would be the one the unfiltered reading
+keeps) and the target of its own cross-reference, if any, is `x`, cited, absent from the file or
+found after it (`parentOk`). -/
+def provisoStrong (file : List SEntry) (citations : List Str) : Bool :=
+  proviso file citations &&
+  (citations.contains star ||
+   citations.all fun c =>
+    match file.find? fun e => keq e.key c with
+    | none => true
+    | some e =>
+      match e.crossref with
+      | none => true
+      | some x => cited citations x || !(file.any fun q => keq q.key x) || firstLater file citations x [] file)
 
 /-! ### C14 — what a field lookup yields -/
 
